@@ -80,12 +80,19 @@ def _mk_part(pid, divs, voices, staves, octave, missing_staff=False, with_rest=T
     from gen import scores as G
     sc = _sc()
     notes = []
+    tie_pairs = []
     bar = divs * 4
     for k, v in enumerate(voices):
         st = None if missing_staff else 1 + (k % staves)
         for j in range(2):
             notes.append(("%sv%dn%d" % (pid, v, j), j * bar // 2, bar // 2, "CDEFGAB"[(k + j) % 7], None, octave, v, st))
-        notes.append(("%sv%dlong" % (pid, v), bar, bar, "CDEFGAB"[(k + 3) % 7], None, octave, v, st))
+        if k == 0:
+            # the long note of the first voice is written as two tied notes (a tie chain is one sounding note, in every unit)
+            notes.append(("%sv%dlong" % (pid, v), bar, bar // 2, "CDEFGAB"[(k + 3) % 7], None, octave, v, st))
+            notes.append(("%sv%dlongt" % (pid, v), bar + bar // 2, bar - bar // 2, "CDEFGAB"[(k + 3) % 7], None, octave, v, st))
+            tie_pairs.append(("%sv%dlong" % (pid, v), "%sv%dlongt" % (pid, v)))
+        else:
+            notes.append(("%sv%dlong" % (pid, v), bar, bar, "CDEFGAB"[(k + 3) % 7], None, octave, v, st))
     rests = [("%sr" % pid, 2 * bar, bar, voices[0] if voices else 1, None if missing_staff else 1)] if with_rest else []
 
     def extra(p, byid):
@@ -101,7 +108,7 @@ def _mk_part(pid, divs, voices, staves, octave, missing_staff=False, with_rest=T
         p.add(sc.ConstantLoudnessDirection("f", staff=None if missing_staff else 1), bar)
         p.add(sc.ImpulsiveLoudnessDirection("sfz", staff=None if missing_staff else 1), bar + bar // 2)
         p.add(sc.DynamicTempoDirection("rit.", staff=None if missing_staff else 1), 2 * bar, 3 * bar)
-    return G.build_part(pid, divs, ts=((0, ts[0], ts[1]),), notes=notes, rests=rests, key=(1 if pid == "P0" else -2, "major"), clefs=[] if missing_staff else [(0, 1, "G", 2)],
+    return G.build_part(pid, divs, ts=((0, ts[0], ts[1]),), notes=notes, ties=tie_pairs, rests=rests, key=(1 if pid == "P0" else -2, "major"), clefs=[] if missing_staff else [(0, 1, "G", 2)],
                         measures=[(0, bar), (bar, 2 * bar), (2 * bar, 3 * bar)] if not pickup else [(0, bar // 2), (bar // 2, bar // 2 + bar), (bar // 2 + bar, 3 * bar)], extra=extra)
 
 
